@@ -185,7 +185,8 @@ def join_guard(prog, rep, ctx):
         if (p in te) != (not first.truth):
             rep.bad("C13.join-guard", where, "TypeError branch", "TypeError is not raised exactly when the type test fails", f.where())
             return
-        wrote = any(e.kind in ("setelem", "setfield") for e in p.events)
+        from .C19 import memo_sound
+        wrote = any(e.kind in ("setelem", "setfield") and not (e.kind == "setfield" and e.func.cls is not None and memo_sound(prog, ctx, e.func)[0]) for e in p.events)
         if p in te or p in ce:
             if wrote:
                 rep.bad("C13.join-guard", where, "store before the error", "join modifies the receiver before refusing the operand", f.where())
@@ -217,7 +218,8 @@ def check(prog, rep, tier):
         for fn in ("union", "intersection", "jaccard_index"):
             bloom_guard_prefix(prog, rep, "C13.guard-first", ctx, fn)
             eff = E.of(ctx, prog.method(ctx, fn))
-            w = [e for e in eff if e[0] == "self" or e[0].startswith("param:")]
+            from .C19 import memo_effect
+            w = [e for e in eff if (e[0] == "self" or e[0].startswith("param:")) and not memo_effect(prog, ctx, e)]
             if w:
                 rep.bad("C13.operand-untouched", f"{ctx}.{fn}", f"write {w[0][0]}.{w[0][1]}", f"an operand is modified: {fmt_eff(w[0])}", w[0][3].split("@")[-1])
             else:
@@ -230,7 +232,8 @@ def check(prog, rep, tier):
     for ctx in (CMS_JOIN_CTX if tier == "thorough" else CMS_JOIN_CTX[:1]):
         join_guard(prog, rep, ctx)
         eff = E.of(ctx, prog.method(ctx, "join"))
-        w = [e for e in eff if e[0] == "param:second"]
+        from .C19 import memo_effect
+        w = [e for e in eff if e[0] == "param:second" and not memo_effect(prog, ctx, e)]
         if w:
             rep.bad("C13.operand-untouched", f"{ctx}.join", f"write second.{w[0][1]}", f"join modifies its operand: {fmt_eff(w[0])}", w[0][3].split("@")[-1])
         else:
